@@ -220,11 +220,20 @@ class MutableShareFile:
                       + 4
                       + (lease_number-4)*self.LEASE_SIZE)
         else:
-            # must add an extra lease record
-            self._write_num_extra_leases(f, num_extra_leases+1)
+            # must add an extra lease record.  Write the record before
+            # counting it: if we are interrupted between the two writes the
+            # container then merely has an uncounted record after its last
+            # lease, instead of a count that claims a record which is not
+            # there (which makes every later lease read fail).
             offset = (extra_lease_offset
                       + 4
                       + (lease_number-4)*self.LEASE_SIZE)
+            f.seek(offset)
+            assert f.tell() == offset
+            f.write(self._schema.lease_serializer.serialize(lease_info))
+            f.flush()
+            self._write_num_extra_leases(f, num_extra_leases+1)
+            return
         f.seek(offset)
         assert f.tell() == offset
         f.write(self._schema.lease_serializer.serialize(lease_info))
